@@ -99,7 +99,7 @@ type Time struct {
 
 	// rels
 
-	Ticks []Tick `gorm:"foreignKey:TimeID,MachineID;references:ID,MachineID"`
+	Ticks []Tick `gorm:"foreignKey:TimeID,MachineID;references:ID,MachineID;constraint:OnDelete:CASCADE"`
 
 	// data
 
@@ -961,6 +961,7 @@ func (m *Memory) checkGc() {
 
 		return
 	}
+	defer m.gcMx.Unlock()
 
 	timeDb := gorm.G[Time](m.Db)
 	_, err := timeDb.
@@ -1056,6 +1057,9 @@ func (m *Memory) writeDb(rLocked bool) {
 			m.onErr(err)
 			return err
 		}
+
+		// stats
+		m.Saved.Add(uint64(l))
 
 		return nil
 	})
